@@ -39,7 +39,7 @@ type Collector struct {
 
 func NewCollector(prop string, shard int) *Collector {
 	return &Collector{
-		st: ShardStats{Property: prop, Shard: shard, Classes: map[string]int64{}, Skipped: map[string]int64{}},
+		st:      ShardStats{Property: prop, Shard: shard, Classes: map[string]int64{}, Skipped: map[string]int64{}},
 		hashes:  map[uint64]struct{}{},
 		maxSamp: 6,
 		rng:     0x9e3779b97f4a7c15 ^ uint64(shard+1),
